@@ -247,3 +247,33 @@ Definition weave_ok (before after : prog) : bool :=
   | Some p' => prog_eqb (canon p') (canon after)
   | None => false
   end.
+
+(* ---- renaming one value everywhere (definition and uses) ------------------------------------ *)
+Definition ren_block (f : val -> val) (b : block) : block := map (ren_stmt f) b.
+Definition ren_prog (f : val -> val) (p : prog) : prog := mkProg (map f (p_params p)) (ren_block f (p_body p)).
+
+(* the ids the machine may bind in the environment when it runs a statement *)
+Fixpoint stmt_binds (s : stmt) : list val :=
+  let blk := fix blk (b : list stmt) : list val := match b with [] => [] | x :: b' => stmt_binds x ++ blk b' end in
+  match s with
+  | SPure d _ => [d]
+  | SCall _ _ _ ds _ => ds
+  | SFor iv _ _ _ its rs body _ => iv :: map it_arg its ++ rs ++ blk body
+  | SIf _ rs th _ el _ => map fst rs ++ blk th ++ blk el
+  | _ => []
+  end.
+Definition block_binds (b : block) : list val := flat_map stmt_binds b.
+Definition prog_binds (p : prog) : list val := p_params p ++ block_binds (p_body p).
+
+(* L1 certificate for one recorded SimplifyRedundantSetupCalls rewrite: the real result is the proved
+   structural map [simp_prog] followed by renaming the replaced out-state [target] to the new
+   value [o'], and neither is ever bound by the machine (they are state values) *)
+Definition simplify_cert (T : tbl) (fresh : list val) (target : val) (before after : prog) : bool :=
+  match hd_fresh fresh with
+  | Some o' =>
+      let q := simp_prog (Nat.eqb target) (tfun T) before in
+      prog_eqb (ren_prog (rn target o') q) after
+      && block_fields_nodup (p_body before)
+      && negb (mem_nat target (prog_binds q)) && negb (mem_nat o' (prog_binds q))
+  | None => false
+  end.
